@@ -24,6 +24,7 @@ type staleCase struct {
 	UseBefore     bool // every query object answers one call before the later Add
 	BuildAfterAdd bool // explicit index.Build() after the later Add
 	ResetEQ       bool // EdgeQuery.Reset() after the later Add
+	ResetIndex    bool // index.Reset() before the later Add: the index then holds the later shapes only
 	Probes        []gen.P
 	Cfg           qcfg
 }
@@ -39,6 +40,7 @@ func genStale(t *rapid.T) staleCase {
 	c.UseBefore = rapid.Bool().Draw(t, "useBefore")
 	c.BuildAfterAdd = rapid.Bool().Draw(t, "buildAfterAdd")
 	c.ResetEQ = rapid.Bool().Draw(t, "resetEQ")
+	c.ResetIndex = rapid.IntRange(0, 2).Draw(t, "resetIndex") == 0
 	// probes mostly around the later shapes, where the answers change
 	c.Probes = append(gen.ProbePoints(t, "pa", allVerts(c.After), 4), gen.ProbePoints(t, "pb", allVerts(c.Before), 2)...)
 	c.Cfg = qcfg{Limit: -1, Interiors: rapid.Bool().Draw(t, "int"), K: rapid.SampledFrom([]int{0, 1, 3}).Draw(t, "K"), Brute: rapid.IntRange(0, 3).Draw(t, "brute") == 0}
@@ -72,6 +74,11 @@ func runStale(c staleCase) ev.Outcome {
 		ceq.CrossingsEdgeMap(p, c.Probes[1].Pt(), s2.CrossingTypeAll)
 		eqCall(eq, "FindEdges", s2.NewMinDistanceToPointTarget(p), 0)
 	}
+	if c.ResetIndex {
+		// same object, new contents: Reset, then only the later shapes
+		idx.Reset()
+		hs = append([]s2.Shape{}, hsA...)
+	}
 	for _, s := range hsA {
 		idx.Add(s)
 	}
@@ -82,7 +89,11 @@ func runStale(c staleCase) ev.Outcome {
 		eq.Reset()
 	}
 	// fresh twin
-	fs := buildShapes(append(append([]gen.ShapeSpec{}, c.Before...), c.After...))
+	finalSpecs := append(append([]gen.ShapeSpec{}, c.Before...), c.After...)
+	if c.ResetIndex {
+		finalSpecs = append([]gen.ShapeSpec{}, c.After...)
+	}
+	fs := buildShapes(finalSpecs)
 	fidx := indexOfShapes(fs)
 	// would the later shapes change anything at all?
 	bidx := indexOfShapes(buildShapes(c.Before))
@@ -155,7 +166,7 @@ func runStale(c staleCase) ev.Outcome {
 		}
 	}
 	o.NonTrivial = changed
-	o.Class = fmt.Sprintf(c.Which+"/usedBefore=%v/buildAfterAdd=%v/resetEQ=%v/edges=%s", c.UseBefore, c.BuildAfterAdd, c.ResetEQ, bucket(totalEdges(c.Before)+totalEdges(c.After)))
+	o.Class = fmt.Sprintf(c.Which+"/usedBefore=%v/buildAfterAdd=%v/resetEQ=%v/resetIndex=%v/edges=%s", c.UseBefore, c.BuildAfterAdd, c.ResetEQ, c.ResetIndex, bucket(totalEdges(c.Before)+totalEdges(c.After)))
 	o.Counts = map[string]int{}
 	if len(mism) > 0 {
 		var ms []string
@@ -168,7 +179,7 @@ func runStale(c staleCase) ev.Outcome {
 			o.Counts[k] = n
 		}
 		sort.Strings(ms)
-		o.Err = fmt.Sprintf("query objects created before index.Add ignore the added shapes (usedBefore=%v buildAfterAdd=%v resetEQ=%v); methods that disagree: %s; first: %s", c.UseBefore, c.BuildAfterAdd, c.ResetEQ, strings.Join(ms, ", "), first)
+		o.Err = fmt.Sprintf("query objects created before index.Add ignore the added shapes (usedBefore=%v buildAfterAdd=%v resetEQ=%v resetIndex=%v); methods that disagree: %s; first: %s", c.UseBefore, c.BuildAfterAdd, c.ResetEQ, c.ResetIndex, strings.Join(ms, ", "), first)
 		o.Finding = "stale-query-object"
 	}
 	return o
